@@ -164,6 +164,7 @@ def run(ctx):
     _check_lexer(ctx, ptab, parser)
     _check_whole_input(ctx, model)
     _check_arglist(ctx, model)
+    _arglist_trailing_comma(ctx, model)
     check_importer(ctx, model, "C07", parser)
 
 
@@ -433,6 +434,82 @@ def _check_arglist(ctx, model):
     ctx.ob("P/parse_arglist/result", ok, loc,
            "returns (tuple(args), kwargs)" if ok else
            "parse_arglist does not return (tuple(<positional>), <keyword>)")
+
+
+def _arglist_trailing_comma(ctx, model):
+    """Python allows one comma after the last argument of a call.  Token-level
+    path rule over a general round of the argument loop: some error-free way
+    through it consumes a comma and then, with nothing parsed in between, ends
+    the list at ')' -- within one round, or as the tail of one round (comma
+    consumed last) followed by a round that sees ')' first."""
+    from ..rules import loop_body_fn
+    owner, fn = model.require_method(f"{PARSER}:Parser", "parse_arglist")
+    loc = owner.module.loc(fn)
+    pname = fn.args.args[1].arg
+    loops = [st for st in fn.body if isinstance(st, (ast.While, ast.For))]
+    if len(loops) != 1:
+        raise AnalysisError("parse_arglist: argument loop not found")
+    body = loop_body_fn(fn, loops[0])
+
+    from ..summary import facts_of
+
+    def tag_fact(v):
+        """abstract `pstate.next_tag() is/== TAG` -> TAG"""
+        if isinstance(v, tuple) and v and v[0] == "compare" and v[1] in (
+                ("Is",), ("Eq",)) and isinstance(v[2], tuple) and \
+                v[2][:3] == ("call", f"{pname}.next_tag", ()) and \
+                v[3][0][0] == "global":
+            return v[3][0][1]
+        return None
+
+    traces = []
+    for ps in summarize(body, node_param=False, plain=True, loop_mode="1"):
+        look = None
+        trace = []
+        error = False
+        for it in ps.items:
+            if it[0] == "cond":
+                vals = [v for tn, pol, v in ps.conds if tn is it[1]]
+                for v in vals:
+                    if not isinstance(v, tuple):
+                        continue
+                    for f, fpol in facts_of(v, it[2]):
+                        tg = tag_fact(f)
+                        if tg and fpol:
+                            look = tg
+            elif it[0] == "stmt":
+                for c in ast.walk(it[1]):
+                    if not isinstance(c, ast.Call):
+                        continue
+                    f = ast.unparse(c.func)
+                    if f == f"{pname}.raise_parse_error":
+                        error = True
+                    elif f == f"{pname}.expect" and c.args and isinstance(
+                            c.args[0], ast.Name):
+                        look = c.args[0].id
+                    elif f == f"{pname}.advance":
+                        trace.append(look or "?")
+                        look = None
+                    elif f.endswith("parse_expression"):
+                        trace.append("EXPR")
+                        look = None
+        if ps.term == "raise" or error:
+            continue
+        traces.append((trace, ps.term))
+    if not traces or not any(t == "return" for _, t in traces):
+        raise AnalysisError("parse_arglist: no accepting way through a round")
+    n_rounds = len(traces)
+    single = any(term == "return" and len(tr) >= 2 and tr[-2:] ==
+                 ["_comma", "_closepar"] for tr, term in traces)
+    tail = any(term == "end" and tr and tr[-1] == "_comma" for tr, term in traces)
+    head = any(term == "return" and tr == ["_closepar"] for tr, term in traces)
+    ok = single or (tail and head)
+    ctx.ob("P/parse_arglist/trailing-comma", ok, loc,
+           "f(a,) is accepted: a comma may be followed by ')'" if ok else
+           "no error-free way through the argument loop consumes a comma and "
+           "then ends the list at ')': f(a,) and f(a, k=b,), which Python "
+           "accepts, raise a ParseError", {"rounds": n_rounds})
+    ctx.floor("argument-loop rounds analysed", n_rounds, 3)
 
 
 # ---------------------------------------------------------------------------
